@@ -119,6 +119,10 @@ structure Step (H : Type) where
   consumed : Nat                 -- content bytes consumed after the frame (Put)
   fatal : Bool := false          -- a file-system error inside the handler (`?`): the session ends, no reply
 
+/-- the key names the served root itself or a directory (a proper prefix of an existing key) -/
+def isDir (t : HTree) (key : List (List Char)) : Bool :=
+  key.isEmpty || t.any fun e => key.length < e.1.length && e.1.take key.length = key
+
 /-- some proper, non-empty prefix of the key is a regular file: `create_dir_all(parent)` fails -/
 def parentIsFile (t : HTree) (key : List (List Char)) : Bool :=
   (List.range key.length).any fun n => 0 < n && (hget t (key.take n)).isSome
@@ -146,10 +150,14 @@ def handle {H} [DecidableEq H] (hash : Bytes → H) (short : H → List Char) (t
     | none => { tree := t, reply := some (.error "bad path"), consumed := body.length }
     | some _ =>
       if parentIsFile t (keyOf p) then { tree := t, reply := none, consumed := 0, fatal := true }
+      else if body.length ≠ len then { tree := t, reply := some (.error "content length mismatch"), consumed := body.length }
       else if hash body ≠ h then { tree := t, reply := some (.error "content hash mismatch"), consumed := body.length }
       else
         let cur := (hget t (keyOf p)).map hash
-        if casCommit cur expected then
+        if isDir t (keyOf p) then
+          -- the rename onto a directory (or onto the root itself) fails: reported, nothing stored
+          { tree := t, reply := some (.error "commit failed"), consumed := body.length }
+        else if casCommit cur expected then
           { tree := hins t (keyOf p) body, reply := some (.putResult true (some h)), consumed := body.length }
         else
           { tree := hins t (osResolve (cnameOf p (short h))) body, reply := some (.putResult false cur), consumed := body.length }
